@@ -759,6 +759,16 @@ def follow_up(ex, d, case, problems, where):
             problems.append('%s: listing band b%04d reports errors: %s' % (where, b, [variant_name(ex, e) for e in ex.env['monitor'].errors][:3]))
         if gp != [p for _, p in want]:
             problems.append('%s: listing band b%04d gives %s, stitching rule gives %s' % (where, b, gp, want))
+    # the default selection (newest complete version) must still resolve, whatever the kill left behind
+    try:
+        rsel = A.run_async(ex, A.fn_by(ex.prog, 'Archive', None, 'resolve_band_id'), [Ref([ar], 0), enum_val(ex, 'band::BandSelectionPolicy', 'LatestClosed')])
+        complete = [b for b in sorted(bands) if bands[b].get('head') and bands[b].get('tail')]
+        got_sel = rsel.fields[0].fields[0] if rsel.variant == 0 else 'Err:' + variant_name(ex, rsel.fields[0])
+        want_sel = complete[-1] if complete else 'Err:NoCompleteBands'
+        if got_sel != want_sel:
+            problems.append('%s: listing band selection LatestClosed gives %s, the newest complete version is %s' % (where, got_sel, want_sel))
+    except Panic as p:
+        problems.append('%s: listing band selection panics: %s' % (where, str(p)[:150]))
     ex.env['monitor'].errors.clear()
     nviol = len(st.violations)
     pre = st.snapshot()
@@ -923,12 +933,23 @@ def make_selection(prog, ids):
         def h(ex):
             st, ar = A.new_archive(ex)
             closed = {}
+            headless = {}
             for b in ids:
+                # 0 closed, 1 open, 2 a bare directory (backup killed before it wrote the head), 3 a zero-length head (killed inside that write)
+                state = ex.concretize(ex.fresh_int('state%d' % b, 0, 3), 0, 3, 'band state')
+                closed[b] = state == 0
+                if state >= 2:
+                    headless[b] = 'no-head' if state == 2 else 'empty-head'
+                    st.put_dir(A.band_name(b))
+                    if state == 3:
+                        st.put_dir(A.band_name(b) + '/i')
+                        st.put_file(A.band_name(b) + '/BANDHEAD', Raw(b''))
+                    continue
                 A.put_head(ex, st, b)
                 A.put_hunk(ex, st, b, 0, [A.mk_entry(ex, '/', 'Dir', 5, mode=0o755)])
-                closed[b] = ex.branch(ex.fresh_bool('closed%d' % b), 'closed?')
                 if closed[b]:
                     A.put_tail(ex, st, b, 1)
+            ex.env['headless'] = headless
             st.put_dir('unrelated-dir')
             st.mode = 'run'
             out = {}
@@ -936,10 +957,12 @@ def make_selection(prog, ids):
                 r = A.run_async(ex, resolve, [Ref([ar], 0), enum_val(ex, 'band::BandSelectionPolicy', pol)])
                 out[pol] = r.fields[0].fields[0] if r.variant == 0 else 'Err:' + variant_name(ex, r.fields[0])
             want_closed = max([b for b in ids if closed[b]], default=None)
+            # "Latest" names the newest band directory whether or not it has a head yet (that is what the next backup numbers from)
             want_latest = max(ids, default=None)
             problems = []
             if out['LatestClosed'] != (want_closed if want_closed is not None else 'Err:NoCompleteBands'):
-                problems.append('LatestClosed selects %s, the newest complete version is %s' % (out['LatestClosed'], want_closed))
+                problems.append('LatestClosed selects %s, the newest complete version is %s%s' % (
+                    out['LatestClosed'], want_closed, ' (bands left by a backup killed while creating its band: %s)' % headless if headless else ''))
             if out['Latest'] != (want_latest if want_latest is not None else 'Err:ArchiveEmpty'):
                 problems.append('Latest selects %s, the newest version is %s' % (out['Latest'], want_latest))
             return problems, closed
@@ -952,9 +975,9 @@ def make_selection(prog, ids):
                 return
             problems, closed = out[1]
             if problems:
-                res['bad'].append({'kind': 'selection', 'problems': problems, 'ids': ids, 'closed': closed})
+                res['bad'].append({'kind': 'selection', 'problems': problems, 'ids': ids, 'closed': closed, 'headless': dict(ex.env.get('headless') or {})})
             elif len(res['samples']) < 1:
-                res['samples'].append({'ids': ids, 'closed': closed})
+                res['samples'].append({'ids': ids, 'closed': closed, 'headless': dict(ex.env.get('headless') or {})})
         return h, on_path, res
     return mk_
 
